@@ -996,7 +996,7 @@ class Exec:
             v = (1 << 32) - 1
         elif segs[-1] == "PhantomData":
             v = Adt("PhantomData", 0, ())
-        elif "promoted[" in text or text in self.prog.consts or last2 in self.prog.consts or (len(segs) == 1 and segs[0] in self.prog.consts):
+        elif "promoted[" in text or text in self.prog.consts or last2 in self.prog.consts or (segs[-1] in self.prog.consts and (len(segs) == 1 or segs[-1].isupper())):
             f = None
             for cand in (text, s, last2, segs[-1]):
                 for pre in ("",):
